@@ -192,6 +192,8 @@ func (bc *Blockchain) GetBlockTemplate(txn adb.Txn, addr address.Address) (*bloc
 		} else {
 			if stakesig.Hash != bl.BlockStakedHash() {
 				Log.Warn("stakeSig.Hash and block staked hash do not match:", stakesig.Hash, bl.BlockStakedHash())
+			} else if !bc.stakeSigUsable(txn, stats, stakesig.DelegateId, validEntries) {
+				Log.Debug("block template: stake sig not used, delegate", stakesig.DelegateId, "has nothing staked")
 			} else {
 				bl.StakeSignature = stakesig.Signature
 				bl.DelegateId = stakesig.DelegateId
@@ -243,6 +245,35 @@ func (bc *Blockchain) GetBlockTemplate(txn adb.Txn, addr address.Address) (*bloc
 	}
 
 	return bl, min_diff, nil
+}
+
+// stakeSigUsable tells whether a block that carries the stake signature of the given delegate together with the
+// given mempool transactions passes validation: checkBlock refuses any signature while nothing is staked, and the
+// staking reward, which is paid after the block's transactions, needs the delegate to still hold funds.
+func (bc *Blockchain) stakeSigUsable(txn adb.Txn, stats *Stats, delegateId uint64, entries []*MempoolEntry) bool {
+	if stats.StakedAmount == 0 {
+		return false
+	}
+	delegate, err := bc.GetDelegate(txn, delegateId)
+	if err != nil || len(delegate.Funds) == 0 {
+		return false
+	}
+	remaining := delegate.TotalAmount()
+	delegateAddr := address.NewDelegateAddress(delegateId)
+	for _, e := range entries {
+		if e.TxVersion != transaction.TX_VERSION_UNSTAKE {
+			continue
+		}
+		for _, inp := range e.Inputs {
+			if inp.Sender == delegateAddr {
+				if remaining < inp.Amount {
+					return false
+				}
+				remaining -= inp.Amount
+			}
+		}
+	}
+	return remaining > 0
 }
 
 func (bc *Blockchain) MineBlock(addr address.Address) {
